@@ -33,7 +33,12 @@ def sig_of_trace(e, events, k):
 def run(ctx):
     q = ctx.quick
     vlib.model_check(ctx, "MC_YamlBytes.tla", "MC_YamlBytes.cfg", workers=2, timeout=900)
-    path, total = c14.generate(ctx, q, '{"V1", "V2"}')
+    # block-only small random documents WITHOUT avoiding the validator's known-defect triggers (V1, V2): they are
+    # exhibited as KNOWN-FINDING, anything else there is still a violation
+    known_scope = ("simk18", c14.cfg_text("{1, 7, 11}", 9, 1, styles='{"plain", "double"}', coll='{"block"}', decor=1000,
+                                          indents="{1, 2, 4}", breaks='{"LF", "CR"}', flags=c14.ALL_FLAGS, avoid="{}", sim=True),
+                   "num=%d" % (1500 if q else 10000))
+    path, total = c14.generate(ctx, q, '{"V1", "V2"}', extra=[known_scope])
     b = vlib.harness_bin("c14")
     mp = ctx.path("mismatches.ndjson")
     rc, out, wall = vlib.sh([b, "replay", path, mp, "validate=1", "samples=%d" % (40 if q else 200)], timeout=3000)
